@@ -603,6 +603,19 @@ Qed.
 Lemma data_bytes_cons cfg b bs : data_bytes cfg (b :: bs) = batch_bytes cfg b ++ data_bytes cfg bs.
 Proof. reflexivity. Qed.
 
+(** the loop of Next that skips row groups without rows: nothing left to load ... *)
+Lemma load_nonempty_nil fs s : load_nonempty decompress fs [] s = Ok ([], 0%Z, [], s).
+Proof. reflexivity. Qed.
+
+(** ... and on a row group that has a row it is the single [read_row_group] *)
+Lemma load_nonempty_first fs rg rest s recs s' :
+  read_row_group decompress fs rg s = Ok (recs, s') -> (0 < rg_num_rows rg)%Z ->
+  load_nonempty decompress fs (rg :: rest) s = Ok (recs, rg_num_rows rg, rest, s').
+Proof.
+  intros Hrd Hpos. cbn [load_nonempty]. rewrite Hrd.
+  replace (0 <? rg_num_rows rg)%Z with true by lia. reflexivity.
+Qed.
+
 (** the Next/Scan loop: [cur] are the unscanned records of the loaded row
     group, [rest_bs] the batches whose row groups are still to be loaded *)
 Lemma iterate_ok cfg rows : forall fuel cur rest_bs cursor rgcursor rgcount rgs nexts recs s tailb,
@@ -631,8 +644,8 @@ Proof.
       replace (rgcount <=? rgcursor)%Z with true by lia.
       rewrite data_bytes_cons, <- app_assoc in Hrem.
       destruct (read_row_group_ok cfg (x :: b) rg s _ Hcfg Hb Hm Hfail Hrem) as (s' & Hrd & Hadv).
-      rewrite Hrd. cbn [hd tl].
       destruct Hm as [_ Hnr]. cbn [length] in Hnr.
+      rewrite (load_nonempty_first _ rg rgs' s _ _ Hrd) by lia. cbn [hd tl].
       rewrite (IH b rest_bs (cursor + 1)%Z (0 + 1)%Z (rg_num_rows rg) rgs' (nexts + 1) (recs ++ [x]) s' tailb);
         try assumption.
       * cbn [length concat Nat.add app]. rewrite app_length. cbn [length]. f_equal; [lia|].
